@@ -46,10 +46,30 @@ theorem restart_tracks_stored (s : St) (hw : WF s) (now : Int) (id : Nat) :
     (∃ l ∈ (restart s now).stored, l.id = id ∧ unreachable (restart s now) l = false) :=
   ((Inv_restart s hw now).te id).trans (elig_iff _ id)
 
-/-- An irrevocable, zero-expiry, expired or non-renewable lease cannot be renewed: `Renew` answers with an error
-and leaves storage (in particular the expiry) as it was. -/
+/-- the statement at full strength: an irrevocable, zero-expiry, expired or non-renewable lease cannot be renewed -/
+def unrenewable_refused_full : Prop :=
+  ∀ (s : St) (id : Nat) (incr now : Int) (l : Lease), find? s id = some l →
+    (l.irrevocable = true ∨ l.expiry = none ∨ expired l now = true ∨ l.renewable = false) →
+    ∃ e s', renew s id incr now = (s', .err e) ∧ s'.stored = s.stored
+
+/-- **Finding F64**: the full statement is false on the current tree — a live, non-renewable secret lease that was
+issued to a BATCH token is renewed (`leaseEntry.renewable` answers `(false, nil)` for it and `Renew` looks at the error
+only; the existing test `TestExpiration_Register_BatchToken` depends on it). -/
+theorem batch_lease_nonrenewable_renewed_cex : ¬ unrenewable_refused_full := by
+  intro h
+  have hf : find? (batchReg St.init 3600 7200 false 0).1 0 =
+      some { id := 0, isAuth := false, owner := 0, issue := 0, expiry := some 3600, bttl := 3600, bmax := 7200,
+             emax := 0, renewable := false, irrevocable := false, rootNonExp := false, batch := true } := by decide
+  obtain ⟨e, s', he, _⟩ := h _ 0 60 10 _ hf (Or.inr (Or.inr (Or.inr rfl)))
+  have hr : (renew (batchReg St.init 3600 7200 false 0).1 0 60 10).2 = .okTTL 60 := by decide
+  rw [he] at hr
+  cases hr
+
+/-- `…_partial` (everything but F64): an irrevocable, zero-expiry or EXPIRED lease — whoever it was issued to — and a
+non-renewable lease that was not issued to a batch token cannot be renewed: `Renew` answers with an error and leaves
+storage (in particular the expiry) as it was. -/
 theorem unrenewable_refused (s : St) (id : Nat) (incr now : Int) (l : Lease) (hl : find? s id = some l)
-    (h : l.irrevocable = true ∨ l.expiry = none ∨ expired l now = true ∨ l.renewable = false) :
+    (h : l.irrevocable = true ∨ l.expiry = none ∨ expired l now = true ∨ (l.renewable = false ∧ l.batch = false)) :
     ∃ e s', renew s id incr now = (s', .err e) ∧ s'.stored = s.stored := by
   unfold renew
   simp only [hl]
@@ -58,9 +78,16 @@ theorem unrenewable_refused (s : St) (id : Nat) (incr now : Int) (l : Lease) (hl
   · obtain ⟨e, he⟩ := renewableCheck_some l now h
     exact ⟨e, loadMark s l, by simp [he], (loadMark_frame s l).1⟩
 
+/-- **Finding F63 (repaired)**: with the batch arm ABOVE the expiry check (the order before the repair) an expired lease
+that was issued to a batch token — stored, its revocation pending or being retried — passed the check and was renewed. -/
+theorem expired_batch_lease_order_cex :
+    let l : Lease := { id := 0, isAuth := false, owner := 0, issue := 0, expiry := some 60, bttl := 60, bmax := 7200,
+                       emax := 0, renewable := true, irrevocable := false, rootNonExp := false, batch := true }
+    expired l 100 = true ∧ renewableCheckBatchFirst l 100 = none ∧ renewableCheck l 100 = some "expired" := by decide
+
 /-- the same for tokens (`RenewToken`) -/
 theorem unrenewable_token_refused (s : St) (id : Nat) (incr now : Int) (l : Lease) (hl : find? s id = some l)
-    (h : l.irrevocable = true ∨ l.expiry = none ∨ expired l now = true ∨ l.renewable = false) :
+    (h : l.irrevocable = true ∨ l.expiry = none ∨ expired l now = true ∨ (l.renewable = false ∧ l.batch = false)) :
     ∃ e s', tokRenew s id incr now = (s', .err e) ∧ s'.stored = s.stored := by
   unfold tokRenew
   split
@@ -237,7 +264,7 @@ example : (renew (run St.init [.tokCreate 14400 0 true 0, .reg 0 3600 7200 true 
 example : (renew (run St.init [.tokCreate 14400 0 true 0, .reg 0 3600 7200 true 1, .setFail .unrecoverable,
     .revoke 1 false 2]) 1 60 3).2 = .err "irrevocable" := by decide
 /-- a crash that leaves an arbitrary lease entry behind: the restart tracks it -/
-example : (run St.init [.crashRestart [⟨7, false, 0, 0, some 100, 60, 0, 0, true, false, false, 0⟩] 5]).pending = [7] := by
+example : (run St.init [.crashRestart [⟨7, false, 0, 0, some 100, 60, 0, 0, true, false, false, 0, false⟩] 5]).pending = [7] := by
   decide
 
 end C05b
